@@ -527,7 +527,7 @@ def gen_script(rng, kind, nV, nF, nCorn, nCells, ncalls):
         for w in ("uniform", "area", "angle"):
             pool.append(["vnormals", w] + pd())
         if kind == "tri":
-            pool += [["cot"] + pd(), ["cw"] + pd(), ["cot"] + pd(), ["cw"] + pd(),
+            pool += [["circum"] + pd(), ["circum"] + pd(), ["cot"] + pd(), ["cw"] + pd(), ["cot"] + pd(), ["cw"] + pd(),
                      ["defects", False] + pd(), ["defects", True] + pd(), ["defects", False] + pd()]
         mode = lambda: rng.choice(["const", "rand", "rand"])  # noqa: E731
         pre = lambda n: (None if rng.random() < 0.7 else attr_values(rng, n, "rand"))  # noqa: E731
